@@ -420,6 +420,9 @@ theorem offered_engine (P : Params σ) (c : Cfg) (s : St σ) : Offered (lens s) 
     omega
   · simp only [Offered]; omega
 
+theorem chain_min {a p b q c k : Nat} (h1 : min (a + p) (a + 1) ≤ b) (h3 : a + p ≤ b + q)
+    (h2 : min (b + q) (b + k) ≤ c) : min (a + p) (a + (k + 1)) ≤ c := by omega
+
 def countUpdates : List Op → Nat
   | [] => 0
   | .add _ :: ops => countUpdates ops
@@ -443,10 +446,12 @@ theorem service_bound {P : Params σ} {Q : σ → Prop} (hs : StableOut P Q) (c 
     simp only [runOps, List.foldl_cons] at ih ⊢
     cases o with
     | add it =>
-      have := ih (addData .ext it s) (healthy_add it s hh)
+      have h := ih (addData .ext it s) (healthy_add it s hh)
+      have e : lens (addData .ext it s) = { lens s with rq := (lens s).rq + 1 } := by simp [lens, addData]
       simp only [applyOp, countUpdates]
-      simp only [lens, addData, List.length_append, List.length_cons, List.length_nil] at this ⊢
-      omega
+      rw [e] at h
+      dsimp only at h ⊢
+      exact ⟨by omega, h.2.1, h.2.2.1, h.2.2.2.1, h.2.2.2.2⟩
     | update =>
       have h1 := engine_update_serves hs c s hh
       have hh' : Healthy P Q (engineUpdate P c s) := engineUpdate_closed (healthy_closed hs) c s hh
@@ -454,11 +459,8 @@ theorem service_bound {P : Params σ} {Q : σ → Prop} (hs : StableOut P Q) (c 
       have h3 := offered_engine P c s
       simp only [applyOp, countUpdates]
       dsimp only [Offered] at h1 h2 h3 ⊢
-      generalize lens (List.foldl (applyOp P c) (engineUpdate P c s) ops) = C at h2 ⊢
-      generalize lens (engineUpdate P c s) = B at h1 h2 h3
-      generalize lens s = A at h1 h2 h3 ⊢
-      generalize countUpdates ops = k at h2 ⊢
-      omega
+      exact ⟨chain_min h1.1 h3.1 h2.1, chain_min h1.2.1 h3.2.1 h2.2.1, chain_min h1.2.2.1 h3.2.2.1 h2.2.2.1,
+        chain_min h1.2.2.2.1 h3.2.2.2.1 h2.2.2.2.1, chain_min h1.2.2.2.2 h3.2.2.2.2 h2.2.2.2.2⟩
 
 def iterUpdate (P : Params σ) (c : Cfg) : Nat → St σ → St σ
   | 0, s => s
